@@ -342,7 +342,9 @@ def doc_pool(seed, n):
 def plan(tier):
     ndocs = 2 if tier == "quick" else 150
     return [{"name": "table%d" % i, "i": i, "of": 16, "docs": ndocs} for i in range(16)] + \
-        [{"name": "placed%d" % i, "type": "placed", "n": 120 if tier == "quick" else 8000} for i in range(8)]
+        [{"name": "placed%d" % i, "type": "placed", "n": 120 if tier == "quick" else 8000} for i in range(8)] + \
+        [{"name": "table_ascii_locale%d" % i, "i": i, "of": 4, "docs": 2 if tier == "quick" else 30,
+          "env": "ascii_locale", "nonascii": True} for i in range(4)]
 
 
 def run(shard, seed, ctx):
@@ -355,6 +357,8 @@ def run(shard, seed, ctx):
             continue
         for k, spec in enumerate(pool):
             case = {"cell": list(cell), "doc": spec}
+            if shard.get("env"):
+                case["env"] = shard["env"]
             try:
                 with env.watchdog():
                     raised, fails = run_cell(cell, spec)
